@@ -30,13 +30,13 @@ FlagsN == {F("r", FALSE, FALSE, FALSE, FALSE, FALSE),
            F("w", FALSE, FALSE, FALSE, FALSE, FALSE),
            F("rw", TRUE, FALSE, FALSE, FALSE, FALSE),
            F("w", TRUE, TRUE, FALSE, FALSE, FALSE)}
-\* history-sensitive config (GenH): truncating opens, a write that leaves recognisable bytes,
-\* seeks inside / at / beyond the old length
-FlagsH == {F("rw", TRUE, FALSE, FALSE, FALSE, FALSE),
+\* directed histories (GenH!DSpec): plain and truncating opens, a one-byte write, seeks inside and
+\* beyond the old length <<2, 2>>
+FlagsH == {F("rw", FALSE, FALSE, FALSE, FALSE, FALSE),
            F("rw", FALSE, FALSE, TRUE, FALSE, FALSE),
            F("w", FALSE, FALSE, TRUE, FALSE, FALSE)}
-DatasH == {<<1>>, <<2, 2>>}
-SeeksH == {<<0, 0>>, <<1, 0>>, <<2, 0>>, <<3, 0>>}
+DatasH == {<<1>>}
+SeeksH == {<<1, 0>>, <<3, 0>>}
 \* file-centred configs: one path, every flag combination
 PathsF == {<<"a">>}
 SeeksQ == {<<0, 0>>, <<1, 1>>, <<0 - 1, 2>>, <<0 - 1, 0>>, <<2, 2>>}
